@@ -482,6 +482,42 @@ fn params_cmd(text: &str) -> Result<String, String> {
 }
 
 /// every AssertL hidden CMR of the debug build, looked up in debug_symbols()
+/// C14 (last clause): the value a tracked call reports for a Simplicity input.
+///   (mapvalue "<text>" (args..) ((<cmr> <value>)...)) -> (ok (dbg <value>) | (fallible <value>) | (fallible-other) | none | unknown ...)
+fn mapvalue_cmd(text: &str, args: &Sexp, queries: &Sexp) -> Result<String, String> {
+    use simfony::debug::FallibleCallName as F;
+    let template = match TemplateProgram::new(text) {
+        Ok(t) => t,
+        Err(e) => return Ok(format!("(rej {})", quote(&first_line(&e)))),
+    };
+    let arguments = Arguments::from(name_values(args)?);
+    let compiled = match template.instantiate(arguments, true) {
+        Ok(c) => c,
+        Err(e) => return Ok(format!("(cerr {})", quote(&first_line(&e)))),
+    };
+    let mut out = vec![];
+    for q in queries.as_list()? {
+        let l = q.as_list()?;
+        let want = l[0].as_atom()?;
+        let value = value_of_sexp(&l[1])?;
+        let call = want.parse::<Cmr>().ok().and_then(|cmr| compiled.debug_symbols().get(&cmr));
+        let Some(call) = call else {
+            out.push(Sexp::atom("unknown"));
+            continue;
+        };
+        let structural = simfony::value::StructuralValue::from(&value);
+        out.push(match call.map_value(&structural) {
+            None => Sexp::atom("none"),
+            Some(Either::Right(dv)) => Sexp::tagged("dbg", vec![value_to_sexp(dv.value())]),
+            Some(Either::Left(fc)) => match fc.name() {
+                F::UnwrapLeft(v) | F::UnwrapRight(v) => Sexp::tagged("fallible", vec![value_to_sexp(&v)]),
+                _ => Sexp::atom("fallible-other"),
+            },
+        });
+    }
+    Ok(Sexp::tagged("ok", out).to_string())
+}
+
 fn dbgsyms_cmd(text: &str, args: &Sexp) -> Result<String, String> {
     use simplicity::dag::{DagLike, InternalSharing};
     let template = match TemplateProgram::new(text) {
@@ -605,6 +641,7 @@ pub fn handle(line: &str) -> Result<String, String> {
         ("commit", 3) => commit_cmd(a[0].as_atom()?, &a[1], a[2].as_usize()? != 0),
         ("params", 1) => params_cmd(a[0].as_atom()?),
         ("dbgsyms", 2) => dbgsyms_cmd(a[0].as_atom()?, &a[1]),
+        ("mapvalue", 3) => mapvalue_cmd(a[0].as_atom()?, &a[1], &a[2]),
         ("calls", 1) => calls_cmd(a[0].as_atom()?),
         ("ast", 1) => Ok(ast_cmd(a[0].as_atom()?)),
         ("term", 3) => term_cmd(a[0].as_atom()?, &a[1], a[2].as_usize()? != 0),
